@@ -396,7 +396,8 @@ def explore(tier, runner):
                             continue
                         if D > 0 and heavy >= 33:
                             continue
-                    unred = W <= b["B_unreduced_up_to_workers"] and spec[2] <= 2 and spec[0] == "newick" and spec[1] == "" and (W <= 2 or D == 0)
+                    unred = W <= b["B_unreduced_up_to_workers"] and spec[2] <= 2 and spec[0] == "newick" and spec[1] == "" and (
+                        W <= 2 or (D == 0 and spec[3] is True))
                     chunksB.append({"part": "B", "spec": list(spec), "W": W, "D": D, "unreduced": unred})
         chunksB.sort(key=lambda c: -(c["W"] * 10 + c["spec"][2] + (100 if c["unreduced"] else 0)))
         auxB = runner.map("run_B", chunksB)
